@@ -994,6 +994,17 @@ class Gen:
         evaluating the pattern under the current solution: triples, nested groups, UNION, FILTER (top level), GRAPH."""
         r = self.rng
         elts = [self.triples(vis)]
+        if vis and r.random() < 0.08:
+            # outside that fragment (known finding C04-K4): a filter in a NESTED group, or the condition of an OPTIONAL,
+            # that mentions a variable bound outside the EXISTS
+            sc = in_scope(["group", elts])
+            ov = r.choice(sorted(vis))
+            iv = r.choice(sorted(sc)) if sc else ov
+            f = ["filter", r.choice([["cmp", "ne", ["var", iv], ["var", ov]], ["bound", ov],
+                                     ["cmp", "eq", ["var", iv], ["var", ov]]])]
+            if r.random() < 0.5:
+                return ["group", [["union", [["group", elts + [f]]]]]]
+            return ["group", elts + [["opt", ["group", [self.triples(sc), f]]]]]
         if r.random() < 0.35:
             sc = in_scope(["group", elts])
             c = r.random()
